@@ -11,18 +11,40 @@ import (
 // Options builds the option list of a world: PathSep, VarExp, the Env configs
 // and the resolvers, each in the order they were added.
 func Options(envs []*Node, resolvers [][]KV) ([]ucfg.Option, error) {
-	opts := []ucfg.Option{ucfg.PathSep("."), ucfg.VarExp}
+	l, err := OptionsLive(envs, resolvers)
+	if err != nil {
+		return nil, err
+	}
+	return l.Opts, nil
+}
+
+// Live is an option list whose surroundings can change while the Option values stay the same (the way an
+// application builds its options once): the Env configs can be merged into and the resolvers answer from
+// Tables, which may be replaced.
+type Live struct {
+	Opts    []ucfg.Option // PathSep("."), VarExp, Env..., Resolve...
+	EnvCfgs []*ucfg.Config
+	Tables  [][]KV
+}
+
+// NoSep is the same list of Option values without the PathSep option.
+func (l *Live) NoSep() []ucfg.Option { return l.Opts[1:] }
+
+func OptionsLive(envs []*Node, resolvers [][]KV) (*Live, error) {
+	l := &Live{Opts: []ucfg.Option{ucfg.PathSep("."), ucfg.VarExp}}
 	for _, e := range envs {
 		ec, err := ucfg.NewFrom(e.Go(), ucfg.PathSep("."), ucfg.VarExp)
 		if err != nil {
 			return nil, fmt.Errorf("building an Env config failed: %v", err)
 		}
-		opts = append(opts, ucfg.Env(ec))
+		l.EnvCfgs = append(l.EnvCfgs, ec)
+		l.Opts = append(l.Opts, ucfg.Env(ec))
 	}
-	for _, r := range resolvers {
-		r := r
-		opts = append(opts, ucfg.Resolve(func(name string) (string, parse.Config, error) {
-			for _, kv := range r {
+	l.Tables = append([][]KV(nil), resolvers...)
+	for i := range resolvers {
+		i := i
+		l.Opts = append(l.Opts, ucfg.Resolve(func(name string) (string, parse.Config, error) {
+			for _, kv := range l.Tables[i] {
 				if kv.K == name {
 					return kv.V, parse.DefaultConfig, nil
 				}
@@ -30,7 +52,7 @@ func Options(envs []*Node, resolvers [][]KV) ([]ucfg.Option, error) {
 			return "", parse.DefaultConfig, ucfg.ErrMissing
 		}))
 	}
-	return opts, nil
+	return l, nil
 }
 
 // IsCyclic reports whether some level of the error's Reason chain is
